@@ -53,8 +53,11 @@ type cliEnv struct {
 }
 
 func (c *Ctx) cliExplorer(env cliEnv) *explorer {
-	e := &explorer{c: c, MaxDepth: 1, MaxPaths: 200000}
-	e.Inline = func(*ssa.Function) bool { return false }
+	e := &explorer{c: c, MaxDepth: 3, MaxPaths: 200000}
+	// helpers of the tool's own package (the action split into functions) are part of the action
+	e.Inline = func(g *ssa.Function) bool {
+		return strings.HasPrefix(fnPkgPath(g), modPath+"/cmd/") && g.Blocks != nil
+	}
 	ctxCall := func(v ssa.Value) (method, flag string, ok bool) {
 		call, isCall := v.(*ssa.Call)
 		if !isCall {
@@ -210,15 +213,27 @@ func checkC30(c *Ctx, r *Report) {
 		}
 		// F5: the flags exist under the agreed names (queried by this tool)
 		names := map[string]bool{}
-		allInstrs(f, func(i ssa.Instruction) {
-			if call, ok := i.(*ssa.Call); ok {
-				if g := staticCallee(&call.Call); g != nil && g.Signature.Recv() != nil && typeIs(g.Signature.Recv().Type(), "github.com/urfave/cli/v2", "Context") && len(call.Call.Args) > 1 {
-					if s, ok := constString(call.Call.Args[1]); ok {
-						names[s] = true
+		seenH := map[*ssa.Function]bool{}
+		var scanNames func(h *ssa.Function, d int)
+		scanNames = func(h *ssa.Function, d int) {
+			if seenH[h] || d > 3 || h.Blocks == nil {
+				return
+			}
+			seenH[h] = true
+			allInstrs(h, func(i ssa.Instruction) {
+				if call, ok := i.(*ssa.Call); ok {
+					g := staticCallee(&call.Call)
+					if g != nil && g.Signature.Recv() != nil && typeIs(g.Signature.Recv().Type(), "github.com/urfave/cli/v2", "Context") && len(call.Call.Args) > 1 {
+						if s, ok := constString(call.Call.Args[1]); ok {
+							names[s] = true
+						}
+					} else if g != nil && strings.HasPrefix(fnPkgPath(g), modPath+"/cmd/") {
+						scanNames(g, d+1) // helper of the tool's own package
 					}
 				}
-			}
-		})
+			})
+		}
+		scanNames(f, 0)
 		r.cond(names[fileFlag] && names[optFlag], "F", strings.TrimPrefix(tool, "cmd/")+":flag-names", c.pos(f.Pos()), "queries --"+fileFlag+" and --"+optFlag, "the tool does not query the flags --"+fileFlag+" / --"+optFlag)
 	}
 	// R7: the option list means "Add every option, in order"
@@ -620,7 +635,13 @@ func (c *Ctx) checkOptionListSemantics(r *Report, rule string) {
 	}
 	// (c) two fields => "*"
 	star := false
-	for _, f := range append(closuresIn(parse), parse) {
+	parsers := append(closuresIn(parse), parse)
+	for _, g := range staticCalleesOf(parse) {
+		if fnPkgPath(g) == pkTopics && g.Blocks != nil {
+			parsers = append(parsers, g) // the per-option parser as a package-level function
+		}
+	}
+	for _, f := range parsers {
 		allInstrs(f, func(i ssa.Instruction) {
 			for _, op := range i.Operands(nil) {
 				if op != nil && *op != nil {
